@@ -6,6 +6,8 @@ def check(run):
     q = run.quick()
     inv = ["AtMostOneRun", "ReturnsShared", "FieldDiscipline"]
     model_check(run, "once", "Once", dict(Callers=tla_set([1, 2, 3] if q else [1, 2, 3, 4]), EarlyRead="FALSE"), invariants=inv, label="wrapper over sync.Once")
+    model_check(run, "once", "Once", dict(Callers=tla_set([1, 2, 3]), EarlyRead="FALSE"), properties=["EveryDoReturns"], spec="LiveSpec",
+                label="liveness: every Do returns")
     bad = model_check(run, "once", "Once", dict(Callers=tla_set([1, 2]), EarlyRead="TRUE"), invariants=["ReturnsShared"], expect_violation=True,
                       label="fields read before once.Do")
     if not bad.get("violated"):
